@@ -186,6 +186,16 @@ func TestVerifC02(t *testing.T) {
 	runtime.GOMAXPROCS(oldP)
 	debug.SetGCPercent(oldGC)
 
+	// ---- S. real parallelism: many senders on one connection at once (windows between two senders that no hook sits in)
+	for k := 0; k < 3; k++ {
+		wrong, _ := rcStress(16, 4000)
+		for _, w := range wrong {
+			rep.bad("stress:not-the-callers-response", "S/%d (16 concurrent unbatched senders x 4000 requests on one connection): %s", k, w)
+		}
+		rep.Distinct++
+		rep.Scenarios++
+	}
+
 	// ---- B. concurrent callers, out-of-order answers
 	for k := 0; k < nrand; k++ {
 		rng := rand.New(rand.NewSource(seed*104729 + int64(k)))
